@@ -10,7 +10,8 @@ namespace Teleport.Lifecycle
 theorem lstep_cases {c c' : Core} {e : LEv} (h : lstep c e = some c') :
     (e = .hookOk ∧ c.ph = .hooks ∧ c' = { c with ph := .accepted }) ∨
     (e = .hookReject ∧ c.ph = .hooks ∧ c' = { c with ph := .rejected }) ∨
-    (e = .storeOk ∧ c.ph = .accepted ∧ c' = { c.store .ok with ph := .running }) ∨
+    (e = .storeOk ∧ c.ph = .accepted ∧ c.st = .preparing ∧ c' = { c.store .ok with ph := .running }) ∨
+    (e = .storeOk ∧ c.ph = .accepted ∧ c.st ≠ .preparing ∧ c' = { c with ph := .aborted }) ∨
     (e = .spawn ∧ c.ph = .running ∧ c.reader = .idle ∧ c' = { c with reader := .loop }) ∨
     (e = .closeCall ∧ c.closer = .idle ∧ (c.st = .ok ∨ c.st = .preparing) ∧ c' = { c with st := .activeClosing, closer := .hubdel }) ∨
     (e = .closeCall ∧ c.closer = .idle ∧ ¬ (c.st = .ok ∨ c.st = .preparing) ∧ c' = c) ∨
@@ -27,7 +28,8 @@ theorem lstep_cases {c c' : Core} {e : LEv} (h : lstep c e = some c') :
     (e = .dLoad ∧ c.reader = .disc0 ∧ c' = { c with rst := c.st, reader := .loaded }) ∨
     (e = .dStore ∧ c.reader = .loaded ∧ (c.rst = .passiveClosed ∨ c.rst = .activeClosed ∨ c.rst = .passiveClosing) ∧ c' = { c with reader := .done }) ∨
     (e = .dStore ∧ c.reader = .loaded ∧ c.rst = .activeClosing ∧ c' = { c with reader := .hubdel }) ∨
-    (e = .dStore ∧ c.reader = .loaded ∧ (c.rst ≠ .passiveClosed ∧ c.rst ≠ .activeClosed ∧ c.rst ≠ .passiveClosing ∧ c.rst ≠ .activeClosing) ∧ c' = { c.store .passiveClosing with reader := .hubdel }) ∨
+    (e = .dStore ∧ c.reader = .loaded ∧ (c.rst ≠ .passiveClosed ∧ c.rst ≠ .activeClosed ∧ c.rst ≠ .passiveClosing ∧ c.rst ≠ .activeClosing) ∧ c.st = c.rst ∧ c' = { c.store .passiveClosing with reader := .hubdel }) ∨
+    (e = .dStore ∧ c.reader = .loaded ∧ (c.rst ≠ .passiveClosed ∧ c.rst ≠ .activeClosed ∧ c.rst ≠ .passiveClosing ∧ c.rst ≠ .activeClosing) ∧ c.st ≠ c.rst ∧ c' = { c with reader := .disc0 }) ∨
     (e = .dHubDel ∧ c.reader = .hubdel ∧ c' = { c with reader := if c.rst = .activeClosing then .done else .sock }) ∨
     (e = .dSock ∧ c.reader = .sock ∧ c' = { c with sockClosed := true, reader := .closed }) ∨
     (e = .dClosed ∧ c.reader = .closed ∧ c' = { c.store .passiveClosed with reader := .notify }) ∨
@@ -38,6 +40,10 @@ theorem lstep_cases {c c' : Core} {e : LEv} (h : lstep c e = some c') :
     split at h
     · split at h <;> simp_all
     · simp at h
+  case storeOk =>
+    split at h
+    · split at h <;> simp_all
+    · simp at h
   case eof => simp_all
   case rdMsg =>
     split at h
@@ -45,14 +51,14 @@ theorem lstep_cases {c c' : Core} {e : LEv} (h : lstep c e = some c') :
     · simp at h
   case dStore =>
     split at h
-    · split at h <;> simp_all
+    · split at h <;> (try split at h) <;> simp_all
     · simp at h
   all_goals (split at h <;> simp_all <;> done)
 
 
-/-- split a step into the 25 guarded assignments of `lstep_cases`. -/
+/-- split a step into the 27 guarded assignments of `lstep_cases`. -/
 macro "lstep_split" h:ident : tactic =>
-  `(tactic| (have hsplit := lstep_cases $h:ident; clear $h:ident; rcases hsplit with $h:ident | $h:ident | $h:ident | $h:ident | $h:ident | $h:ident | $h:ident | $h:ident | $h:ident | $h:ident | $h:ident | $h:ident | $h:ident | $h:ident | $h:ident | $h:ident | $h:ident | $h:ident | $h:ident | $h:ident | $h:ident | $h:ident | $h:ident | $h:ident | $h:ident))
+  `(tactic| (have hsplit := lstep_cases $h:ident; clear $h:ident; rcases hsplit with $h:ident | $h:ident | $h:ident | $h:ident | $h:ident | $h:ident | $h:ident | $h:ident | $h:ident | $h:ident | $h:ident | $h:ident | $h:ident | $h:ident | $h:ident | $h:ident | $h:ident | $h:ident | $h:ident | $h:ident | $h:ident | $h:ident | $h:ident | $h:ident | $h:ident | $h:ident | $h:ident))
 
 /-- invariant of every schedule. -/
 structure SInv (c : Core) : Prop where
@@ -76,6 +82,7 @@ theorem sinv_step {c c' : Core} {e : LEv} (h : lstep c e = some c') (hi : SInv c
   lstep_split h
   all_goals (
     first
+    | obtain ⟨rfl, g1, g2, g3, g4, rfl⟩ := h
     | obtain ⟨rfl, g1, g2, g3, rfl⟩ := h
     | obtain ⟨rfl, g1, g2, rfl⟩ := h
     | obtain ⟨rfl, g1, rfl⟩ := h
@@ -85,10 +92,10 @@ theorem sinv_step {c c' : Core} {e : LEv} (h : lstep c e = some c') (hi : SInv c
 /-- the reader's position is compatible with an active close being in charge. -/
 def RA (c : Core) : Prop :=
   c.reader = .idle ∨ c.reader = .loop ∨ c.reader = .disc0 ∨ c.reader = .done ∨
-  (c.reader = .loaded ∧ (c.rst = .activeClosing ∨ c.rst = .activeClosed)) ∨
+  (c.reader = .loaded ∧ (c.rst = .ok ∨ c.rst = .activeClosing ∨ c.rst = .activeClosed)) ∨
   (c.reader = .hubdel ∧ c.rst = .activeClosing)
 
-/-- invariant of the race-free schedules: exactly one close path is in charge. -/
+/-- invariant of every schedule: exactly one close path is in charge. -/
 def RInv (c : Core) : Prop :=
   c.left = false ∧
   match c.st with
@@ -97,10 +104,10 @@ def RInv (c : Core) : Prop :=
       (c.reader = .idle ∨ c.reader = .loop ∨ c.reader = .disc0 ∨ (c.reader = .loaded ∧ c.rst = .ok))
   | .activeClosing =>
       (c.closer = .hubdel ∨ c.closer = .notify ∨ c.closer = .callwait ∨ c.closer = .store) ∧
-      c.discCnt = 0 ∧ (c.ph = .rejected ∨ c.ph = .running) ∧ RA c
+      c.discCnt = 0 ∧ RA c
   | .activeClosed =>
       (((c.closer = .sock ∨ c.closer = .hook) ∧ c.discCnt = 0) ∨ (c.closer = .idle ∧ c.discCnt = 1)) ∧
-      (c.ph = .rejected ∨ c.ph = .running) ∧ RA c
+      RA c
   | .passiveClosing =>
       c.closer = .idle ∧ c.discCnt = 0 ∧ (c.reader = .hubdel ∨ c.reader = .sock ∨ c.reader = .closed) ∧ c.rst = .ok
   | .passiveClosed =>
@@ -110,7 +117,7 @@ def RInv (c : Core) : Prop :=
 
 theorem rinv_init : RInv Core.init := by simp [RInv, Core.init]
 
-theorem rinv_step {c c' : Core} {e : LEv} (h : lstep c e = some c') (hr : racy c e = false)
+theorem rinv_step {c c' : Core} {e : LEv} (h : lstep c e = some c')
     (hs : SInv c) (hi : RInv c) : RInv c' := by
   have hrun := hs.readerRunning
   have hpc := hs.pcRunning
@@ -118,44 +125,40 @@ theorem rinv_step {c c' : Core} {e : LEv} (h : lstep c e = some c') (hr : racy c
   lstep_split h
   all_goals (
     first
+    | obtain ⟨rfl, g1, g2, g3, g4, rfl⟩ := h
     | obtain ⟨rfl, g1, g2, g3, rfl⟩ := h
     | obtain ⟨rfl, g1, g2, rfl⟩ := h
     | obtain ⟨rfl, g1, rfl⟩ := h
     | obtain ⟨rfl, rfl⟩ := h)
   all_goals (
     obtain ⟨ph, st, closer, reader, rst, dn, nc, dc, sc, eof, hd, lf⟩ := c
-    cases st <;> cases dn <;> simp_all [RInv, RA, racy, Core.store, Core.notify, Status.isClosed] <;>
+    cases st <;> cases dn <;> simp_all [RInv, RA, Core.store, Core.notify, Status.isClosed] <;>
       (try (cases ph <;> simp_all <;> done)) <;> (try (cases reader <;> simp_all <;> done)))
 
 
 /-! ### closures -/
 
-theorem lreach_sinv {rf : Bool} {a c : Core} (r : LReach rf a c) (hs : SInv a) : SInv c := by
+theorem lreach_sinv {a c : Core} (r : LReach a c) (hs : SInv a) : SInv c := by
   induction r with
   | refl => exact hs
-  | step e _ _ h ih => exact sinv_step h ih
+  | step e _ h ih => exact sinv_step h ih
 
-theorem lreach_rinv {a c : Core} (r : LReach true a c) (hs : SInv a) (hi : RInv a) : RInv c := by
+theorem lreach_rinv {a c : Core} (r : LReach a c) (hs : SInv a) (hi : RInv a) : RInv c := by
   induction r with
   | refl => exact hi
-  | step e r hr h ih => exact rinv_step h (hr rfl) (lreach_sinv r hs) ih
-
-theorem lreach_weaken {rf : Bool} {a c : Core} (r : LReach rf a c) : LReach false a c := by
-  induction r with
-  | refl => exact .refl _
-  | step e _ _ h ih => exact .step e ih (fun h => by cases h) h
+  | step e r h ih => exact rinv_step h (lreach_sinv r hs) ih
 
 /-! ## any number of sessions: every world step is, for each session, a chain of `lstep`s -/
 
 /-- every session's lifecycle component is reachable from `newSession` by `lstep`s. -/
-@[reducible] def Good (rf : Bool) (w : World) : Prop :=
-  ∀ (j : Nat) (s : Sess), w.sess[j]? = some s → LReach rf Core.init s.core
+@[reducible] def Good (w : World) : Prop :=
+  ∀ (j : Nat) (s : Sess), w.sess[j]? = some s → LReach Core.init s.core
 
-theorem good_empty (rf : Bool) : Good rf World.empty := by
+theorem good_empty : Good World.empty := by
   intro j s h; simp [World.empty] at h
 
-theorem good_modify {rf : Bool} {w w' : World} {j : Nat} {f : Sess → Sess}
-    (h : w.modify j f = some w') (hf : ∀ s, (f s).core = s.core) (hg : Good rf w) : Good rf w' := by
+theorem good_modify {w w' : World} {j : Nat} {f : Sess → Sess}
+    (h : w.modify j f = some w') (hf : ∀ s, (f s).core = s.core) (hg : Good w) : Good w' := by
   unfold World.modify at h
   cases hs : w.sess[j]? with
   | none => simp [hs] at h
@@ -170,8 +173,8 @@ theorem good_modify {rf : Bool} {w w' : World} {j : Nat} {f : Sess → Sess}
       · cases hk
     · exact hg k t hk
 
-theorem good_applyPrim {rf : Bool} {w w' : World} {p : Prim}
-    (h : applyPrim rf w p = some w') (hg : Good rf w) : Good rf w' := by
+theorem good_applyPrim {w w' : World} {p : Prim}
+    (h : applyPrim w p = some w') (hg : Good w) : Good w' := by
   cases p with
   | core j e =>
     simp only [applyPrim] at h
@@ -179,29 +182,24 @@ theorem good_applyPrim {rf : Bool} {w w' : World} {p : Prim}
     | none => simp [hs] at h
     | some s =>
       simp only [hs] at h
-      split at h
-      · cases h
-      · rename_i hrf
-        cases hl : lstep s.core e with
-        | none => simp [hl] at h
-        | some c =>
-          simp only [hl, Option.some.injEq] at h
-          subst h
-          intro k t hk
-          simp only [List.getElem?_set] at hk
-          split at hk
-          · split at hk
-            · simp only [Option.some.injEq] at hk; subst hk
-              refine .step e (hg j s hs) (fun hr => ?_) hl
-              subst hr
-              simpa using hrf
-            · cases hk
-          · exact hg k t hk
+      cases hl : lstep s.core e with
+      | none => simp [hl] at h
+      | some c =>
+        simp only [hl, Option.some.injEq] at h
+        subst h
+        intro k t hk
+        simp only [List.getElem?_set] at hk
+        split at hk
+        · split at hk
+          · simp only [Option.some.injEq] at hk; subst hk
+            exact .step e (hg j s hs) hl
+          · cases hk
+        · exact hg k t hk
   | acc j q => simp only [applyPrim] at h; exact good_modify h (fun _ => rfl) hg
   | sid j q => simp only [applyPrim] at h; exact good_modify h (fun _ => rfl) hg
   | id j v => simp only [applyPrim] at h; exact good_modify h (fun _ => rfl) hg
   | put k v => simp only [applyPrim, Option.some.injEq] at h; subst h; exact hg
-  | del k => simp only [applyPrim, Option.some.injEq] at h; subst h; exact hg
+  | delIf k v => simp only [applyPrim, Option.some.injEq] at h; subst h; exact hg
   | new peer partner id path =>
     simp only [applyPrim, Option.some.injEq] at h
     subst h
@@ -214,36 +212,36 @@ theorem good_applyPrim {rf : Bool} {w w' : World} {p : Prim}
       | zero => simp [hd] at hk; subst hk; exact .refl _
       | succ n => simp [hd] at hk
 
-theorem good_applyPrims {rf : Bool} {ps : List Prim} {w w' : World}
-    (h : applyPrims rf w ps = some w') (hg : Good rf w) : Good rf w' := by
+theorem good_applyPrims {ps : List Prim} {w w' : World}
+    (h : applyPrims w ps = some w') (hg : Good w) : Good w' := by
   induction ps generalizing w with
   | nil => simp only [applyPrims, Option.some.injEq] at h; subst h; exact hg
   | cons p ps ih =>
     simp only [applyPrims] at h
-    cases hp : applyPrim rf w p with
+    cases hp : applyPrim w p with
     | none => simp [hp] at h
     | some w1 =>
       simp only [hp, Option.bind_some] at h
       exact ih h (good_applyPrim hp hg)
 
-theorem good_step {rf : Bool} {w w' : World} {ev : Ev} (h : stepG rf w ev = some w') (hg : Good rf w) :
-    Good rf w' := by
-  unfold stepG at h
+theorem good_step {w w' : World} {ev : Ev} (h : step w ev = some w') (hg : Good w) :
+    Good w' := by
+  unfold step at h
   cases hp : plan w ev with
   | none => simp [hp] at h
   | some ps => simp only [hp, Option.bind_some] at h; exact good_applyPrims h hg
 
-theorem good_reach {rf : Bool} {a w : World} (r : Reach rf a w) (hg : Good rf a) : Good rf w := by
+theorem good_reach {a w : World} (r : Reach a w) (hg : Good a) : Good w := by
   induction r with
   | refl => exact hg
   | step ev _ h ih => exact good_step h ih
 
 
-theorem good_of_reach {rf : Bool} {w : World} (r : Reach rf World.empty w) : Good rf w :=
-  good_reach r (good_empty rf)
+theorem good_of_reach {w : World} (r : Reach World.empty w) : Good w :=
+  good_reach r good_empty
 
 theorem reach_of_run_aux {evs : List Ev} {a : World} :
-    ∀ (x b : World), Reach false a x → run x evs = some b → Reach false a b := by
+    ∀ (x b : World), Reach a x → run x evs = some b → Reach a b := by
   induction evs with
   | nil => intro x b r hx; simp only [run, Option.some.injEq] at hx; subst hx; exact r
   | cons e es ih =>
@@ -255,23 +253,23 @@ theorem reach_of_run_aux {evs : List Ev} {a : World} :
       simp only [hs, Option.bind_some] at hx
       exact ih y b (Reach.step e r hs) hx
 
-theorem reach_of_run {evs : List Ev} {a b : World} (h : run a evs = some b) : Reach false a b :=
+theorem reach_of_run {evs : List Ev} {a b : World} (h : run a evs = some b) : Reach a b :=
   reach_of_run_aux a b (.refl a) h
 
 /-- every session of a reachable world went from `newSession` through `lstep`s only. -/
-theorem sess_reach {rf : Bool} {w : World} (r : Reach rf World.empty w) {s : Sess} (hs : s ∈ w.sess) :
-    LReach rf Core.init s.core := by
+theorem sess_reach {w : World} (r : Reach World.empty w) {s : Sess} (hs : s ∈ w.sess) :
+    LReach Core.init s.core := by
   obtain ⟨j, hj⟩ := List.mem_iff_getElem?.1 hs
   exact good_of_reach r j s hj
 
 
-/-- hook counts under the race-free invariant. -/
+/-- hook counts under the invariant. -/
 theorem rinv_disc {c : Core} (hi : RInv c) :
     c.discCnt ≤ 1 ∧ ((c.st = .ok ∨ c.st = .preparing) → c.discCnt = 0) ∧
     (c.st.isClosed = true → c.quiet = true → c.discCnt = 1) := by
   obtain ⟨ph, st, closer, reader, rst, dn, nc, dc, sc, eof, hd, lf⟩ := c
-  cases st <;> simp_all [RInv, RA, Core.quiet, Status.isClosed]
-  · obtain ⟨_, h | h, _, _⟩ := hi
+  cases st <;> simp_all [RInv, Core.quiet, Status.isClosed]
+  · obtain ⟨_, h | h, _⟩ := hi
     · exact ⟨by omega, fun hc _ => by rcases h.1 with e | e <;> rw [e] at hc <;> cases hc⟩
     · exact ⟨by omega, fun _ _ => h.2⟩
   · obtain ⟨_, _, h | h | h⟩ := hi
@@ -286,6 +284,7 @@ theorem left_sound {c c' : Core} {e : LEv} (h : lstep c e = some c') (hc : c.st.
   lstep_split h
   all_goals (
     first
+    | obtain ⟨rfl, g1, g2, g3, g4, rfl⟩ := h
     | obtain ⟨rfl, g1, g2, g3, rfl⟩ := h
     | obtain ⟨rfl, g1, g2, rfl⟩ := h
     | obtain ⟨rfl, g1, rfl⟩ := h
@@ -299,6 +298,7 @@ theorem left_mono {c c' : Core} {e : LEv} (h : lstep c e = some c') (hl : c.left
   lstep_split h
   all_goals (
     first
+    | obtain ⟨rfl, g1, g2, g3, g4, rfl⟩ := h
     | obtain ⟨rfl, g1, g2, g3, rfl⟩ := h
     | obtain ⟨rfl, g1, g2, rfl⟩ := h
     | obtain ⟨rfl, g1, rfl⟩ := h
@@ -355,6 +355,41 @@ theorem put_get_same (h : AL κ) {k : κ} {v : Nat} (hg : h.get k = some v) : h.
     · subst hk; simp [get] at hg; simp [put, hg]
     · simp [get, hk] at hg; simp [put, hk, ih hg]
 
+/-- `delete(id, sess)` when the id maps to `sess`: the entry goes. -/
+theorem get_delIf_hit (h : AL κ) {k : κ} {v : Nat} (hg : h.get k = some v) : (h.delIf k v).get k = none := by
+  simp [delIf, hg, get_del_same]
+
+/-- `delete(id, sess)` when the id maps to another session (or to none): nothing happens. -/
+theorem delIf_miss (h : AL κ) {k : κ} {v : Nat} (hg : h.get k ≠ some v) : h.delIf k v = h := by
+  simp [delIf, hg]
+
+/-- other ids are never touched. -/
+theorem get_delIf_ne (h : AL κ) {k k' : κ} (v : Nat) (hne : k' ≠ k) : (h.delIf k v).get k' = h.get k' := by
+  unfold delIf
+  split
+  · exact get_del_ne _ hne
+  · rfl
+
+/-- an entry of another session survives `delete(id, sess)`. -/
+theorem get_delIf_other (h : AL κ) {k k' : κ} {v t : Nat} (hg : h.get k' = some t) (hne : t ≠ v) :
+    (h.delIf k v).get k' = some t := by
+  by_cases hk : k' = k
+  · subst hk
+    rw [delIf_miss _ (by rw [hg]; intro e; cases e; exact hne rfl)]; exact hg
+  · rw [get_delIf_ne _ _ hk]; exact hg
+
+/-- whatever `delete(id, sess)` leaves was there before. -/
+theorem get_delIf_some (h : AL κ) {k k' : κ} {v t : Nat} (hg : (h.delIf k v).get k' = some t) :
+    h.get k' = some t ∧ ¬ (k' = k ∧ t = v) := by
+  by_cases hk : k' = k
+  · subst hk
+    by_cases hv : h.get k' = some v
+    · rw [get_delIf_hit _ hv] at hg; cases hg
+    · rw [delIf_miss _ hv] at hg
+      exact ⟨hg, fun e => hv (by rw [hg, e.2])⟩
+  · rw [get_delIf_ne _ _ hk] at hg
+    exact ⟨hg, fun e => hk e.1⟩
+
 end AL
 
 /-- exact except that session `x` (if any) is missing from the index. -/
@@ -364,179 +399,254 @@ def HSt.ExB (h : HSt) (x : Option Nat) : Prop :=
 theorem exact_iff_exb (h : HSt) : h.Exact ↔ h.ExB none := by
   simp [HSt.Exact, HSt.ExB]
 
-/-- `Close()` / disconnect of any session keeps an exact index exact. -/
-theorem kill_exact {h : HSt} (s : Nat) (hs : s < h.n) (he : h.Exact) : (h.kill s).Exact := by
+/-- `Close()` / disconnect of an indexed (or already closed) session: the rest stays as it is. -/
+theorem kill_exb_other {h : HSt} {x : Option Nat} {s : Nat} (hs : s < h.n) (hne : x ≠ some s)
+    (hx : h.ExB x) : (h.kill s).ExB x := by
+  unfold HSt.kill
+  by_cases hl : h.live s = true
+  · have hg : h.hub.get (h.idOf s) = some s := (hx _ s).2 ⟨hs, hl, rfl, fun e => hne e.symm⟩
+    simp only [hl, if_true]
+    intro k t
+    show (h.hub.delIf (h.idOf s) s).get k = some t ↔
+      (t < h.n ∧ (if t = s then false else h.live t) = true ∧ h.idOf t = k ∧ some t ≠ x)
+    constructor
+    · intro hd
+      obtain ⟨h0, hns⟩ := AL.get_delIf_some _ hd
+      obtain ⟨a, b, c, d⟩ := (hx k t).1 h0
+      have hts : t ≠ s := by
+        intro e; subst e; exact hns ⟨c.symm, rfl⟩
+      exact ⟨a, by simp [hts, b], c, d⟩
+    · rintro ⟨a, b, c, d⟩
+      by_cases hts : t = s
+      · simp [hts] at b
+      · simp only [hts, if_false] at b
+        exact AL.get_delIf_other _ ((hx k t).2 ⟨a, b, c, d⟩) hts
+  · simp only [hl]
+    exact hx
+
+/-- `Close()` / disconnect of the session that is not (yet) indexed: entries of other sessions —
+    one of them may hold the same id — are not touched. -/
+theorem kill_exb_self {h : HSt} {s : Nat} (hx : h.ExB (some s)) : (h.kill s).Exact := by
   unfold HSt.kill
   by_cases hl : h.live s = true
   · simp only [hl, if_true]
+    have hmiss : h.hub.get (h.idOf s) ≠ some s := by
+      intro e; exact ((hx _ s).1 e).2.2.2 rfl
     intro k t
-    simp only
-    by_cases hk : k = h.idOf s
-    · subst hk
-      rw [AL.get_del_same]
-      constructor
-      · intro hc; cases hc
-      · rintro ⟨h1, h2, h3⟩
-        by_cases hts : t = s
-        · simp [hts] at h2
-        · simp only [hts, if_false] at h2
-          have a := (he (h.idOf s) t).2 ⟨h1, h2, h3⟩
-          have c := (he (h.idOf s) s).2 ⟨hs, hl, rfl⟩
-          rw [a] at c; cases c; exact absurd rfl hts
-    · rw [AL.get_del_ne _ hk]
-      constructor
-      · intro hg
-        have := (he k t).1 hg
-        refine ⟨this.1, ?_, this.2.2⟩
-        by_cases hts : t = s
-        · subst hts; exact absurd this.2.2.symm hk
-        · simp [hts, this.2.1]
-      · rintro ⟨h1, h2, h3⟩
-        by_cases hts : t = s
-        · simp [hts] at h2
-        · simp only [hts, if_false] at h2
-          exact (he k t).2 ⟨h1, h2, h3⟩
+    show (h.hub.delIf (h.idOf s) s).get k = some t ↔
+      (t < h.n ∧ (if t = s then false else h.live t) = true ∧ h.idOf t = k)
+    rw [AL.delIf_miss _ hmiss]
+    constructor
+    · intro hg
+      obtain ⟨a, b, c, d⟩ := (hx k t).1 hg
+      have hts : t ≠ s := fun e => d (by rw [e])
+      exact ⟨a, by simp [hts, b], c⟩
+    · rintro ⟨a, b, c⟩
+      by_cases hts : t = s
+      · simp [hts] at b
+      · simp only [hts, if_false] at b
+        exact (hx k t).2 ⟨a, b, c, fun e => hts (by cases e; rfl)⟩
   · simp only [hl]
-    exact he
-
-
-/-- `hub.set(s)` when no other live session holds the id and `s` is not yet indexed. -/
-theorem set_fresh {h : HSt} {s : Nat} (hs : s < h.n) (hl : h.live s = true) (hx : h.ExB (some s))
-    (hf : ∀ t, t < h.n → t ≠ s → h.live t = true → h.idOf t ≠ h.idOf s) :
-    (h.set s).Exact ∧ (h.set s).n = h.n ∧ (h.set s).idOf = h.idOf ∧ (h.set s).live = h.live := by
-  have hnone : h.hub.get (h.idOf s) = none := by
-    cases hg : h.hub.get (h.idOf s) with
-    | none => rfl
-    | some t =>
-      have := (hx _ t).1 hg
-      exact absurd this.2.2.1 (hf t this.1 (by intro e; exact this.2.2.2 (by rw [e])) this.2.1)
-  unfold HSt.set
-  simp only [hnone]
-  refine ⟨?_, by trivial, by trivial, by trivial⟩
-  intro k t
-  simp only
-  by_cases hk : k = h.idOf s
-  · subst hk
-    rw [AL.get_put_same]
-    constructor
-    · intro e; cases e; exact ⟨hs, hl, rfl⟩
-    · rintro ⟨h1, h2, h3⟩
-      by_cases hts : t = s
-      · rw [hts]
-      · exact absurd h3 (hf t h1 hts h2)
-  · rw [AL.get_put_ne _ _ hk]
+    intro k t
     constructor
     · intro hg
-      have := (hx k t).1 hg
-      exact ⟨this.1, this.2.1, this.2.2.1⟩
-    · rintro ⟨h1, h2, h3⟩
-      refine (hx k t).2 ⟨h1, h2, h3, ?_⟩
-      intro e; cases e; exact hk h3.symm
+      obtain ⟨a, b, c, _⟩ := (hx k t).1 hg
+      exact ⟨a, b, c⟩
+    · rintro ⟨a, b, c⟩
+      exact (hx k t).2 ⟨a, b, c, fun e => by cases e; exact hl b⟩
 
-/-- `hub.set(s)` of a session that is already indexed under its id changes nothing. -/
-theorem set_idem {h : HSt} {s : Nat} (hs : s < h.n) (hl : h.live s = true) (he : h.Exact) :
-    h.set s = h := by
-  have hg : h.hub.get (h.idOf s) = some s := (he _ s).2 ⟨hs, hl, rfl⟩
-  unfold HSt.set
-  simp only [hg, if_true, AL.put_get_same _ hg]
+/-- `Close()` / disconnect of any session keeps an exact index exact. -/
+theorem kill_exact {h : HSt} (s : Nat) (hs : s < h.n) (he : h.Exact) : (h.kill s).Exact :=
+  (exact_iff_exb _).2 (kill_exb_other hs (by intro e; cases e) ((exact_iff_exb _).1 he))
 
-/-- closing a session that is not indexed, when nobody else holds its id. -/
-theorem kill_excluded {h : HSt} {s : Nat} (hl : h.live s = true) (hx : h.ExB (some s))
-    (hold : ∀ t, t < h.n → t ≠ s → h.live t = true → h.idOf t ≠ h.idOf s) : (h.kill s).Exact := by
-  unfold HSt.kill
-  simp only [hl, if_true]
-  intro k t
-  simp only
-  by_cases hk : k = h.idOf s
-  · subst hk
-    rw [AL.get_del_same]
-    constructor
-    · intro e; cases e
-    · rintro ⟨h1, h2, h3⟩
-      by_cases hts : t = s
-      · simp [hts] at h2
-      · simp only [hts, if_false] at h2
-        exact absurd h3 (hold t h1 hts h2)
-  · rw [AL.get_del_ne _ hk]
-    constructor
-    · intro hg
-      have := (hx k t).1 hg
-      have hts : t ≠ s := by intro e; exact this.2.2.2 (by rw [e])
-      exact ⟨this.1, by simp [hts, this.2.1], this.2.2.1⟩
-    · rintro ⟨h1, h2, h3⟩
-      by_cases hts : t = s
-      · simp [hts] at h2
-      · simp only [hts, if_false] at h2
-        exact (hx k t).2 ⟨h1, h2, h3, by intro e; cases e; exact hts rfl⟩
-
-/-- `SetID(v)` to an id nobody holds, on a live session that is indexed (`x = none`) or not yet
-    indexed (`x = some s`, accept hook) and whose old id nobody else holds. -/
-theorem setID_fresh {h : HSt} {s v : Nat} {x : Option Nat} (hxs : x = none ∨ x = some s)
-    (hs : s < h.n) (hl : h.live s = true) (hx : h.ExB x) (hne : h.idOf s ≠ v)
-    (hold : ∀ t, t < h.n → t ≠ s → h.live t = true → h.idOf t ≠ h.idOf s)
-    (hf : ∀ t, t < h.n → t ≠ s → h.live t = true → h.idOf t ≠ v) :
-    (h.setID s v).Exact ∧ (h.setID s v).n = h.n ∧ (h.setID s v).live = h.live ∧
-      (h.setID s v).idOf = fun y => if y = s then v else h.idOf y := by
+/-- `hub.set(s)` of a live session that is indexed under its id (`x = none`) or not yet indexed
+    (`x = some s`): afterwards the index is exact — a previous holder of the id is closed, and its
+    close path leaves the entry (which now maps to `s`) alone. -/
+theorem set_exact {h : HSt} {s : Nat} {x : Option Nat} (hxs : x = none ∨ x = some s)
+    (hs : s < h.n) (hl : h.live s = true) (hx : h.ExB x) :
+    (h.set s).Exact ∧ (h.set s).n = h.n ∧ (h.set s).idOf = h.idOf ∧ (h.set s).live s = true := by
   have hxt : ∀ t, t ≠ s → some t ≠ x := by
     intro t ht e
     rcases hxs with r | r
     · rw [r] at e; cases e
     · rw [r] at e; cases e; exact ht rfl
-  have hnone : h.hub.get v = none := by
-    cases hg : h.hub.get v with
-    | none => rfl
-    | some t =>
-      have := (hx _ t).1 hg
-      have hts : t ≠ s := by intro e; rw [e] at this; exact hne this.2.2.1
-      exact absurd this.2.2.1 (hf t this.1 hts this.2.1)
-  unfold HSt.setID
-  simp only [hne, if_false]
   unfold HSt.set
-  simp only [if_true, hnone]
-  refine ⟨?_, by trivial, by trivial, by trivial⟩
-  intro k t
-  simp only
-  by_cases hko : k = h.idOf s
-  · subst hko
-    rw [AL.get_del_same]
-    constructor
-    · intro e; cases e
-    · rintro ⟨h1, h2, h3⟩
-      by_cases hts : t = s
-      · subst hts; simp only [if_true] at h3; exact absurd h3.symm hne
-      · simp only [hts, if_false] at h3
-        exact absurd h3 (hold t h1 hts h2)
-  · rw [AL.get_del_ne _ hko]
-    by_cases hkv : k = v
-    · subst hkv
+  cases hg : h.hub.get (h.idOf s) with
+  | none =>
+    refine ⟨?_, rfl, rfl, hl⟩
+    intro k t
+    show (h.hub.put (h.idOf s) s).get k = some t ↔ _
+    by_cases hk : k = h.idOf s
+    · subst hk
       rw [AL.get_put_same]
       constructor
-      · intro e; cases e; exact ⟨hs, hl, by simp⟩
-      · rintro ⟨h1, h2, h3⟩
+      · intro e; cases e; exact ⟨hs, hl, rfl⟩
+      · rintro ⟨a, b, c⟩
         by_cases hts : t = s
         · rw [hts]
-        · simp only [hts, if_false] at h3
-          exact absurd h3 (hf t h1 hts h2)
-    · rw [AL.get_put_ne _ _ hkv]
+        · have := (hx _ t).2 ⟨a, b, c, hxt t hts⟩
+          rw [hg] at this; cases this
+    · rw [AL.get_put_ne _ _ hk]
       constructor
-      · intro hg
-        have := (hx k t).1 hg
-        have hts : t ≠ s := by intro e; rw [e] at this; exact hko this.2.2.1.symm
-        exact ⟨this.1, this.2.1, by simp [hts, this.2.2.1]⟩
-      · rintro ⟨h1, h2, h3⟩
-        by_cases hts : t = s
-        · subst hts; simp only [if_true] at h3; exact absurd h3.symm hkv
-        · simp only [hts, if_false] at h3
-          exact (hx k t).2 ⟨h1, h2, h3, hxt t hts⟩
+      · intro h0
+        obtain ⟨a, b, c, _⟩ := (hx k t).1 h0
+        exact ⟨a, b, c⟩
+      · rintro ⟨a, b, c⟩
+        exact (hx k t).2 ⟨a, b, c, hxt t (fun e => hk (by rw [← c, e]))⟩
+  | some old =>
+    obtain ⟨oa, ob, oc, od⟩ := (hx _ old).1 hg
+    by_cases hos : old = s
+    · -- already indexed under its id: nothing changes
+      subst hos
+      simp only [if_true]
+      refine ⟨?_, by trivial, by trivial, hl⟩
+      rw [AL.put_get_same _ hg]
+      intro k t
+      constructor
+      · intro h0
+        obtain ⟨a, b, c, _⟩ := (hx k t).1 h0
+        exact ⟨a, b, c⟩
+      · rintro ⟨a, b, c⟩
+        by_cases hts : t = old
+        · rw [hts, ← c, hts]; exact hg
+        · exact (hx k t).2 ⟨a, b, c, hxt t hts⟩
+    · -- take-over: the previous holder is closed; the entry maps to `s` now and stays
+      simp only [hos, if_false]
+      unfold HSt.kill
+      simp only [ob, if_true]
+      have hmiss : (h.hub.put (h.idOf s) s).get (h.idOf old) ≠ some old := by
+        rw [oc, AL.get_put_same]; intro e; cases e; exact hos rfl
+      refine ⟨?_, by trivial, by trivial, by simp [Ne.symm hos, hl]⟩
+      intro k t
+      show ((h.hub.put (h.idOf s) s).delIf (h.idOf old) old).get k = some t ↔
+        (t < h.n ∧ (if t = old then false else h.live t) = true ∧ h.idOf t = k)
+      rw [AL.delIf_miss _ hmiss]
+      by_cases hk : k = h.idOf s
+      · subst hk
+        rw [AL.get_put_same]
+        constructor
+        · intro e; cases e; exact ⟨hs, by simp [Ne.symm hos, hl], rfl⟩
+        · rintro ⟨a, b, c⟩
+          by_cases hto : t = old
+          · simp [hto] at b
+          · simp only [hto, if_false] at b
+            by_cases hts : t = s
+            · rw [hts]
+            · have := (hx _ t).2 ⟨a, b, c, hxt t hts⟩
+              rw [hg] at this; cases this; exact absurd rfl hto
+      · rw [AL.get_put_ne _ _ hk]
+        constructor
+        · intro h0
+          obtain ⟨a, b, c, _⟩ := (hx k t).1 h0
+          have hto : t ≠ old := fun e => hk (by rw [← c, e, oc])
+          exact ⟨a, by simp [hto, b], c⟩
+        · rintro ⟨a, b, c⟩
+          by_cases hto : t = old
+          · simp [hto] at b
+          · simp only [hto, if_false] at b
+            exact (hx k t).2 ⟨a, b, c, hxt t (fun e => hk (by rw [← c, e]))⟩
 
-/-- in an exact index the holder of an id is unique. -/
-theorem exact_unique {h : HSt} (he : h.Exact) {s t : Nat} (hs : s < h.n) (ht : t < h.n)
-    (ls : h.live s = true) (lt : h.live t = true) (e : h.idOf t = h.idOf s) : t = s := by
-  have a := (he (h.idOf s) s).2 ⟨hs, ls, rfl⟩
-  have b := (he (h.idOf s) t).2 ⟨ht, lt, e⟩
-  rw [a] at b; cases b; rfl
+/-- the index after `Store(v, s)` and `delete(oldID, s)`, in terms of the state before. -/
+theorem setID_core {h : HSt} {s v : Nat} {x : Option Nat} (hxs : x = none ∨ x = some s)
+    (hs : s < h.n) (hl : h.live s = true) (hx : h.ExB x) (hne : h.idOf s ≠ v) (k t : Nat) :
+    ((h.hub.put v s).delIf (h.idOf s) s).get k = some t ↔
+      (t < h.n ∧ h.live t = true ∧ (if t = s then v else h.idOf t) = k ∧ h.hub.get v ≠ some t) := by
+  have hxt : ∀ t, t ≠ s → some t ≠ x := by
+    intro t ht e
+    rcases hxs with r | r
+    · rw [r] at e; cases e
+    · rw [r] at e; cases e; exact ht rfl
+  have hvs : h.hub.get v ≠ some s := fun e => hne ((hx v s).1 e).2.2.1
+  constructor
+  · intro hd
+    obtain ⟨h0, hns⟩ := AL.get_delIf_some _ hd
+    by_cases hk : k = v
+    · subst hk
+      rw [AL.get_put_same] at h0
+      cases h0
+      exact ⟨hs, hl, by simp, hvs⟩
+    · rw [AL.get_put_ne _ _ hk] at h0
+      obtain ⟨a, b, c, _⟩ := (hx k t).1 h0
+      have hts : t ≠ s := fun e => hns ⟨by rw [← c, e], e⟩
+      refine ⟨a, b, by simp [hts, c], fun e => ?_⟩
+      exact hk (by rw [← c, ((hx v t).1 e).2.2.1])
+  · rintro ⟨a, b, c, d⟩
+    by_cases hts : t = s
+    · subst hts
+      simp only [if_true] at c
+      subst c
+      rw [AL.get_delIf_ne _ _ (Ne.symm hne)]
+      exact AL.get_put_same _ _ _
+    · simp only [hts, if_false] at c
+      have h0 := (hx k t).2 ⟨a, b, c, hxt t hts⟩
+      have hk : k ≠ v := fun e => d (by rw [← e]; exact h0)
+      refine AL.get_delIf_other _ ?_ hts
+      rw [AL.get_put_ne _ _ hk]; exact h0
 
-theorem apply_exact {h : HSt} {o : HOp} (he : h.Exact) (hn : h.noShare o) : (h.apply o).Exact := by
+/-- `SetID(v)` on a live session that is indexed (`x = none`) or not yet indexed (`x = some s`,
+    accept hook), to ANY other id — free, or held by another live session (which is then closed):
+    afterwards the index is exact; the old id's entry goes only if it was this session's. -/
+theorem setID_exact {h : HSt} {s v : Nat} {x : Option Nat} (hxs : x = none ∨ x = some s)
+    (hs : s < h.n) (hl : h.live s = true) (hx : h.ExB x) (hne : h.idOf s ≠ v) :
+    (h.setID s v).Exact ∧ (h.setID s v).n = h.n ∧ (h.setID s v).live s = true := by
+  have core := setID_core hxs hs hl hx hne
+  unfold HSt.setID
+  simp only [hne, if_false, hl, if_true]
+  unfold HSt.set
+  simp only [if_true]
+  cases hgv : h.hub.get v with
+  | none =>
+    refine ⟨?_, by trivial, hl⟩
+    intro k t
+    show ((h.hub.put v s).delIf (h.idOf s) s).get k = some t ↔
+      (t < h.n ∧ h.live t = true ∧ (if t = s then v else h.idOf t) = k)
+    rw [core k t, hgv]
+    simp
+  | some o =>
+    obtain ⟨oa, ob, oc, od⟩ := (hx _ o).1 hgv
+    have hos : o ≠ s := fun e => hne (by rw [← e]; exact oc)
+    simp only [hos, if_false]
+    unfold HSt.kill
+    simp only [ob, if_true]
+    have hmiss : (h.hub.put v s).get v ≠ some o := by
+      rw [AL.get_put_same]; intro e; cases e; exact hos rfl
+    refine ⟨?_, by trivial, by simp [Ne.symm hos, hl]⟩
+    intro k t
+    show (((h.hub.put v s).delIf (if o = s then v else h.idOf o) o).delIf (h.idOf s) s).get k = some t ↔
+      (t < h.n ∧ (if t = o then false else h.live t) = true ∧ (if t = s then v else h.idOf t) = k)
+    simp only [hos, if_false]
+    rw [oc, AL.delIf_miss _ hmiss, core k t, hgv]
+    constructor
+    · rintro ⟨a, b, c, d⟩
+      have hto : t ≠ o := fun e => d (by rw [e])
+      exact ⟨a, by simp [hto, b], c⟩
+    · rintro ⟨a, b, c⟩
+      by_cases hto : t = o
+      · simp [hto] at b
+      · simp only [hto, if_false] at b
+        exact ⟨a, b, c, fun e => by cases e; exact hto rfl⟩
+
+/-- `SetID` on a session that is not in Preparing / Ok: only the socket id changes. -/
+theorem setID_dead {h : HSt} {s v : Nat} (hl : h.live s ≠ true) (he : h.Exact) : (h.setID s v).Exact := by
+  unfold HSt.setID
+  by_cases hne : h.idOf s = v
+  · simp only [hne, if_true]; exact he
+  · simp only [hne, if_false, hl]
+    intro k t
+    show h.hub.get k = some t ↔ (t < h.n ∧ h.live t = true ∧ (if t = s then v else h.idOf t) = k)
+    constructor
+    · intro hg
+      obtain ⟨a, b, c⟩ := (he k t).1 hg
+      have hts : t ≠ s := fun e => hl (by rw [← e]; exact b)
+      exact ⟨a, b, by simp [hts, c]⟩
+    · rintro ⟨a, b, c⟩
+      have hts : t ≠ s := fun e => hl (by rw [← e]; exact b)
+      simp only [hts, if_false] at c
+      exact (he k t).2 ⟨a, b, c⟩
+
+/-- one operation of a history keeps the index exact, whatever ids it shares and whatever session
+    it re-keys. -/
+theorem apply_exact {h : HSt} {o : HOp} (he : h.Exact) : (h.apply o).Exact := by
   cases o with
   | close s =>
     simp only [HSt.apply]
@@ -552,14 +662,13 @@ theorem apply_exact {h : HSt} {o : HOp} (he : h.Exact) (hn : h.noShare o) : (h.a
     simp only [HSt.apply]
     split
     · rename_i hs
-      obtain ⟨hl, hf⟩ := hn hs
-      by_cases hne : h.idOf s = v
-      · simp only [HSt.setID, hne, if_true]; exact he
-      · exact (setID_fresh (x := none) (.inl rfl) hs hl ((exact_iff_exb h).1 he) hne
-          (fun t ht hts lt e => hts (exact_unique he hs ht hl lt e)) hf).1
+      by_cases hl : h.live s = true
+      · by_cases hne : h.idOf s = v
+        · simp only [HSt.setID, hne, if_true]; exact he
+        · exact (setID_exact (x := none) (.inl rfl) hs hl ((exact_iff_exb h).1 he) hne).1
+      · exact setID_dead hl he
     · exact he
   | accept id hook rej =>
-    obtain ⟨hid, hhook⟩ := hn
     simp only [HSt.apply]
     -- the state after `newSession`: exact except for the new session
     let h1 : HSt := { h with n := h.n + 1, idOf := fun x => if x = h.n then id else h.idOf x,
@@ -582,75 +691,91 @@ theorem apply_exact {h : HSt} {o : HOp} (he : h.Exact) (hn : h.noShare o) : (h.a
         exact (he k t).2 ⟨hlt, b, c⟩
     have hs1 : h.n < h1.n := Nat.lt_succ_self _
     have hl1 : h1.live h.n = true := by simp [h1]
-    have hid1 : h1.idOf h.n = id := by simp [h1]
-    have fresh1 : ∀ w, (∀ t, t < h.n → h.live t = true → h.idOf t ≠ w) →
-        ∀ t, t < h1.n → t ≠ h.n → h1.live t = true → h1.idOf t ≠ w := by
-      intro w hw t a b c
-      have hlt : t < h.n := by
-        have : t < h.n + 1 := a
-        omega
-      simp only [h1, b, if_false] at c ⊢
-      exact hw t hlt c
-    have hold1 := fresh1 id hid
-    show HSt.Exact (if rej = true then
-      (match hook with | some v => h1.setID h.n v | none => h1).kill h.n
-      else (match hook with | some v => h1.setID h.n v | none => h1).set h.n)
     cases hook with
     | none =>
-      simp only
       cases rej with
-      | true => simp only [if_true]; exact kill_excluded hl1 hx1 (by rw [hid1]; exact hold1)
+      | true =>
+        show HSt.Exact (h1.kill h.n)
+        exact kill_exb_self hx1
       | false =>
-        simp only [Bool.false_eq_true, if_false]
-        exact (set_fresh hs1 hl1 hx1 (by rw [hid1]; exact hold1)).1
+        show HSt.Exact (h1.set h.n)
+        exact (set_exact (.inr rfl) hs1 hl1 hx1).1
     | some v =>
-      simp only
       by_cases hne : h1.idOf h.n = v
       · have e : h1.setID h.n v = h1 := by simp [HSt.setID, hne]
-        rw [e]
         cases rej with
-        | true => simp only [if_true]; exact kill_excluded hl1 hx1 (by rw [hid1]; exact hold1)
+        | true =>
+          show HSt.Exact ((h1.setID h.n v).kill h.n)
+          rw [e]; exact kill_exb_self hx1
         | false =>
-          simp only [Bool.false_eq_true, if_false]
-          exact (set_fresh hs1 hl1 hx1 (by rw [hid1]; exact hold1)).1
-      · have r := setID_fresh (x := some h.n) (.inr rfl) hs1 hl1 hx1 hne (by rw [hid1]; exact hold1)
-          (fresh1 v (hhook v rfl))
-        obtain ⟨r1, r2, r3, r4⟩ := r
+          show HSt.Exact ((h1.setID h.n v).set h.n)
+          rw [e]; exact (set_exact (.inr rfl) hs1 hl1 hx1).1
+      · obtain ⟨r1, r2, r3⟩ := setID_exact (x := some h.n) (.inr rfl) hs1 hl1 hx1 hne
         cases rej with
-        | true => simp only [if_true]; exact kill_exact _ (by rw [r2]; exact hs1) r1
+        | true =>
+          show HSt.Exact ((h1.setID h.n v).kill h.n)
+          exact kill_exact _ (by rw [r2]; exact hs1) r1
         | false =>
-          simp only [Bool.false_eq_true, if_false]
-          rw [set_idem (by rw [r2]; exact hs1) (by rw [r3]; exact hl1) r1]
-          exact r1
+          show HSt.Exact ((h1.setID h.n v).set h.n)
+          exact (set_exact (x := none) (.inl rfl) (by rw [r2]; exact hs1) r3 ((exact_iff_exb _).1 r1)).1
 
-
-theorem run_exact {ops : List HOp} {h : HSt} (he : h.Exact) (hn : h.noShareRun ops) : (h.run ops).Exact := by
+theorem run_exact {ops : List HOp} {h : HSt} (he : h.Exact) : (h.run ops).Exact := by
   induction ops generalizing h with
   | nil => exact he
-  | cons o os ih => exact ih (apply_exact he hn.1) hn.2
+  | cons o os ih => exact ih (apply_exact he)
 
-/-- a newer session taking over an id (plain `ServeConn`): the older session's close path deletes
-    the newer session's index entry. -/
-theorem accept_collision_breaks {h : HSt} {id t : Nat} (he : h.Exact) (ht : t < h.n)
+/-- the take-over itself, spelled out: a new connection whose id a live session `t` holds ends
+    with the new session live and found under the id, and `t` closed. -/
+theorem accept_takeover {h : HSt} {id t : Nat} (he : h.Exact) (ht : t < h.n)
     (lt : h.live t = true) (hid : h.idOf t = id) :
     let h' := h.apply (.accept id none false)
-    h'.live h.n = true ∧ h'.idOf h.n = id ∧ h.n < h'.n ∧ h'.hub.get id = none := by
+    h'.live h.n = true ∧ h'.idOf h.n = id ∧ h.n < h'.n ∧ h'.hub.get id = some h.n ∧ h'.live t = false := by
   have hg : h.hub.get id = some t := (he id t).2 ⟨ht, lt, hid⟩
   have htn : t ≠ h.n := Nat.ne_of_lt ht
-  simp only [HSt.apply, HSt.set, if_true, hg, htn, if_false, HSt.kill, lt, hid]
-  refine ⟨by simp [Ne.symm htn], by simp, by simp, ?_⟩
-  exact AL.get_del_same _ _
+  have hmiss : (h.hub.put id h.n).get id ≠ some t := by
+    rw [AL.get_put_same]; intro e; cases e; exact htn rfl
+  simp only [HSt.apply, HSt.set, if_true, hg, htn, if_false, HSt.kill, lt, hid, Bool.false_eq_true]
+  refine ⟨by simp [Ne.symm htn], by simp, by simp, ?_, by simp⟩
+  show ((h.hub.put id h.n).delIf id t).get id = some h.n
+  rw [AL.delIf_miss _ hmiss, AL.get_put_same]
 
-/-- `SetID` to the id of another live session: the re-keyed session ends up outside the index. -/
-theorem setID_collision_breaks {h : HSt} {s t v : Nat} (he : h.Exact) (hs : s < h.n) (ht : t < h.n)
+/-- `SetID` to the id of another live session `t`: the re-keyed session is found under the new id,
+    `t` is closed, the old id is free. -/
+theorem setID_takeover {h : HSt} {s t v : Nat} (he : h.Exact) (hs : s < h.n) (ht : t < h.n)
     (hst : t ≠ s) (ls : h.live s = true) (lt : h.live t = true) (hv : h.idOf t = v) (hne : h.idOf s ≠ v) :
     let h' := h.apply (.setID s v)
-    h'.live s = true ∧ h'.idOf s = v ∧ h'.n = h.n ∧ h'.hub.get v = none := by
+    h'.live s = true ∧ h'.idOf s = v ∧ h'.hub.get v = some s ∧ h'.live t = false ∧
+      h'.hub.get (h.idOf s) = none := by
+  have hx := (setID_exact (x := none) (.inl rfl) hs ls ((exact_iff_exb h).1 he) hne)
   have hg : h.hub.get v = some t := (he v t).2 ⟨ht, lt, hv⟩
-  simp only [HSt.apply, hs, if_true, HSt.setID, hne, if_false, HSt.set, hg, hst, HSt.kill, lt, hv]
-  refine ⟨by simp [Ne.symm hst, ls], by simp, by simp, ?_⟩
-  rw [AL.get_del_ne _ (Ne.symm hne)]
-  exact AL.get_del_same _ _
-
+  have hid : (h.apply (.setID s v)).idOf s = v := by
+    simp [HSt.apply, hs, HSt.setID, hne, HSt.set, hg, hst, HSt.kill, lt, ls]
+  have hlt : (h.apply (.setID s v)).live t = false := by
+    simp [HSt.apply, hs, HSt.setID, hne, HSt.set, hg, hst, HSt.kill, lt, ls]
+  have hn' : (h.apply (.setID s v)).n = h.n := by
+    simp [HSt.apply, hs, HSt.setID, hne, HSt.set, hg, hst, HSt.kill, lt, ls]
+  have hidx : ∀ y, y ≠ s → (h.apply (.setID s v)).idOf y = h.idOf y := by
+    intro y hy
+    simp [HSt.apply, hs, HSt.setID, hne, HSt.set, hg, hst, HSt.kill, lt, ls, hy]
+  have hE : (h.apply (.setID s v)).Exact := by simpa [HSt.apply, hs] using hx.1
+  have hL : (h.apply (.setID s v)).live s = true := by simpa [HSt.apply, hs] using hx.2.2
+  refine ⟨hL, hid, (hE v s).2 ⟨by rw [hn']; exact hs, hL, hid⟩, hlt, ?_⟩
+  cases hc : (h.apply (.setID s v)).hub.get (h.idOf s) with
+  | none => rfl
+  | some y =>
+    obtain ⟨a, b, c⟩ := (hE _ y).1 hc
+    by_cases hy : y = s
+    · rw [hy, hid] at c; exact absurd c.symm hne
+    · rw [hidx y hy] at c
+      -- y held the old id of s before: then y = s in the exact index
+      have hy' : h.hub.get (h.idOf s) = some s := (he _ s).2 ⟨hs, ls, rfl⟩
+      have hyl : h.live y = true := by
+        by_cases hyt : y = t
+        · rw [hyt]; exact lt
+        · have : (h.apply (.setID s v)).live y = h.live y := by
+            simp [HSt.apply, hs, HSt.setID, hne, HSt.set, hg, hst, HSt.kill, lt, ls, hyt]
+          rw [← this]; exact b
+      have := (he _ y).2 ⟨by rw [← hn']; exact a, hyl, c⟩
+      rw [hy'] at this; cases this; exact absurd rfl hy
 
 end Teleport.Lifecycle
